@@ -1580,6 +1580,14 @@ impl Core {
 #[derive(Clone)]
 pub struct Tree {
 	pub(crate) core: Arc<Core>,
+	/// Shared by all clones of this handle; the store is shut down when the last
+	/// of them is dropped (transactions and iterators hold `core`, not this).
+	_last_handle: Arc<CloseOnDrop>,
+}
+
+/// Shuts the store down when dropped (see `Tree::_last_handle`).
+struct CloseOnDrop {
+	core: Arc<Core>,
 }
 
 impl Tree {
@@ -1600,8 +1608,12 @@ impl Tree {
 		// Ensure directory changes are persisted
 		sync_directory_structure(&opts)?;
 
+		let core = Arc::new(core);
 		Ok(Self {
-			core: Arc::new(core),
+			_last_handle: Arc::new(CloseOnDrop {
+				core: Arc::clone(&core),
+			}),
+			core,
 		})
 	}
 
@@ -1849,7 +1861,11 @@ impl Tree {
 	}
 }
 
-impl Drop for Tree {
+// `Tree` is `Clone`. Shutting the store down (and releasing its directory lock)
+// when any one handle is dropped would leave the other handles half alive -
+// reads served, commits refused - while another instance may open the
+// directory. Only the last handle to go shuts the store down.
+impl Drop for CloseOnDrop {
 	fn drop(&mut self) {
 		#[cfg(not(target_arch = "wasm32"))]
 		{
